@@ -420,8 +420,13 @@ impl RemoveOpts {
         } else {
             if let Some(meta) = crate::metadata_sync(cache.as_ref(), key.as_ref())? {
                 let content = content_path(cache.as_ref(), &meta.integrity);
-                fs::remove_file(&content)
-                    .with_context(|| format!("Failed to remove content at {content:?}"))?;
+                // Content that is already gone (e.g. an earlier attempt was
+                // interrupted before the bucket was removed) is fine.
+                match fs::remove_file(&content) {
+                    Err(e) if e.kind() == ErrorKind::NotFound => Ok(()),
+                    other => other,
+                }
+                .with_context(|| format!("Failed to remove content at {content:?}"))?;
             }
             let bucket = bucket_path(cache.as_ref(), key.as_ref());
             fs::remove_file(&bucket)
@@ -441,9 +446,13 @@ impl RemoveOpts {
         } else {
             if let Some(meta) = crate::metadata(cache.as_ref(), key.as_ref()).await? {
                 let content = content_path(cache.as_ref(), &meta.integrity);
-                crate::async_lib::remove_file(&content)
-                    .await
-                    .with_context(|| format!("Failed to remove content at {content:?}"))?;
+                // Content that is already gone (e.g. an earlier attempt was
+                // interrupted before the bucket was removed) is fine.
+                match crate::async_lib::remove_file(&content).await {
+                    Err(e) if e.kind() == ErrorKind::NotFound => Ok(()),
+                    other => other,
+                }
+                .with_context(|| format!("Failed to remove content at {content:?}"))?;
             }
             let bucket = bucket_path(cache.as_ref(), key.as_ref());
             crate::async_lib::remove_file(&bucket)
